@@ -145,6 +145,12 @@ func (c Cfg) expSize(i int) (w, h float64) {
 		return fixW * k, fixH * k
 	case 5:
 		return wset2[(c.WMask>>uint(i))&1] * k, tabH[t] * k
+	case 8:
+		// the table, except that the nodes with index >= WMask are big and tall (40x40)
+		if i >= c.WMask {
+			return 40 * k, 40 * k
+		}
+		return tabW[t] * k, tabH[t] * k
 	case 6:
 		m := c.WMask
 		for j := 0; j < i; j++ {
@@ -157,7 +163,7 @@ func (c Cfg) expSize(i int) (w, h float64) {
 
 func (c Cfg) listed(i int) bool {
 	switch c.SZ {
-	case 2, 5, 6:
+	case 2, 5, 6, 8:
 		return true
 	case 3, 4:
 		return i%2 == 0
